@@ -299,6 +299,9 @@ func (b *V2) Delete(c, t string, key Item, w WriteArgs) *Resp {
 		if w.Retold {
 			in.ReturnValues = types.ReturnValueAllOld
 		}
+		if w.RetVals != "" {
+			in.ReturnValues = types.ReturnValue(w.RetVals)
+		}
 		if w.Rvf {
 			in.ReturnValuesOnConditionCheckFailure = types.ReturnValuesOnConditionCheckFailureAllOld
 		}
